@@ -22,6 +22,7 @@ def run(rep, tier):
     G = gm.Grammar(gm.read(gm.FILES["g4"], rep))
     common.guarded(rep, "C06.1", c06_1, rep, ix, G)
     common.guarded(rep, "C06.2", c06_2, rep, ix)
+    common.guarded(rep, "C06.3", eager_header, rep, ix)
     common.guarded(rep, "C06.3", c06_3, rep, ix, G)
     common.guarded(rep, "C06.4", c11_5, rep, ix, R="C06.4")
     common.guarded(rep, "C06.5", c06_5, rep, ix, G)
@@ -178,6 +179,28 @@ def c06_2(rep, ix):
     return outer
 
 
+def eager_header(rep, ix, R="C06.3"):
+    ex = ix.func(EXIT)
+    fn = ex.node
+    # the header is evaluated completely before the first value is bound: a lazy producer (generator function, generator expression,
+    # map) that evaluates header expressions while the loop below rebinds the variable sees the new bindings
+    orig = getattr(ex, "orig", None) or ex.node
+    for l in walk_shallow(orig):
+        if not isinstance(l, ast.For):
+            continue
+        binds = [x for x in ast.walk(l) if isinstance(x, ast.Assign) and isinstance(x.targets[0], ast.Subscript) and u(x.targets[0].value) == TABLE]
+        if not binds:
+            continue
+        it = l.iter
+        if isinstance(it, ast.Name):
+            ds = [a for a in walk_shallow(orig) if isinstance(a, ast.Assign) and any(isinstance(t, ast.Name) and t.id == it.id for t in a.targets)]
+            lazy_defs = [a.value for a in ds if lazy_producer(ix, ex, a.value)]
+            it = lazy_defs[0] if lazy_defs else it
+        lz = lazy_producer(ix, ex, it)
+        rep.check(not lz, R, ix.site(ex, l), "the values the loop runs over are all evaluated before the loop variable is first bound", "`for %s in %s`: %s" % (
+            u(l.target), " ".join(u(l.iter).split())[:60], lz), key="eager header")
+
+
 def lazy_producer(ix, f, e):
     """why the iterable e produces its elements lazily by evaluating script expressions (None if it does not)"""
     evals = ("_expression(", "_literal(")
@@ -310,23 +333,6 @@ def c06_3(rep, ix, G):
         leak = [s_ for s_ in stmts_app if Reach(fake, s_, aliases=False).may_reach(atom_sep)]
         rep.check(stmts_app and not leak, R, ix.site(ex, vl), "separator tokens are skipped: nothing is appended for a child that is not a ValContext",
                   "`%s` is reachable for a separator" % (" ".join(u(leak[0]).split())[:60] if leak else ""), key="vallist filter")
-    # the header is evaluated completely before the first value is bound: a lazy producer (generator function, generator expression,
-    # map) that evaluates header expressions while the loop below rebinds the variable sees the new bindings
-    orig = getattr(ex, "orig", None) or ex.node
-    for l in walk_shallow(orig):
-        if not isinstance(l, ast.For):
-            continue
-        binds = [x for x in ast.walk(l) if isinstance(x, ast.Assign) and isinstance(x.targets[0], ast.Subscript) and u(x.targets[0].value) == TABLE]
-        if not binds:
-            continue
-        it = l.iter
-        if isinstance(it, ast.Name):
-            ds = [a for a in walk_shallow(orig) if isinstance(a, ast.Assign) and any(isinstance(t, ast.Name) and t.id == it.id for t in a.targets)]
-            lazy_defs = [a.value for a in ds if lazy_producer(ix, ex, a.value)]
-            it = lazy_defs[0] if lazy_defs else it
-        lz = lazy_producer(ix, ex, it)
-        rep.check(not lz, R, ix.site(ex, l), "the values the loop runs over are all evaluated before the loop variable is first bound", "`for %s in %s`: %s" % (
-            u(l.target), " ".join(u(l.iter).split())[:60], lz), key="eager header")
     # the two header forms are dispatched on the grammar alternatives rangeval | vallist
     tests = [u(n.test) for n in walk_shallow(fn) if isinstance(n, ast.If) and u(n.test) in ("ctx.rangeval()", "ctx.vallist()", "ctx.rangeval() is not None", "ctx.vallist() is not None")]
     rep.check(any("rangeval" in t for t in tests) and (any("vallist" in t for t in tests) or True), R, ix.site(ex), "the header is dispatched on ctx.rangeval() / ctx.vallist()", key="dispatch")
